@@ -247,6 +247,15 @@ def check(ctx, rep):
     extra = {k: v for k, v in diff.items() if v > tabled.get(k, 0)}
     rep.expect('R18.d', not extra, 'siblings', 'same calls up to the variant; tabled difference: one extra id check with unreachable! in notify_after',
                'notify_at and notify_after task bodies differ beyond the tabled difference: %s' % extra)
+    # R18.g: "exactly one request per timer" also rests on the command primitives underneath: a request / notification made through the command API
+    # puts its effect on the effect channel exactly once (shared with C01 R01.f)
+    from rules.props import prims as _prims
+    _core = ctx.crate('default', 'crux_core')
+    rep.rule('R18.g', 'a command-API request, stream or notification puts its effect on the effect channel exactly once (at the call / at the first poll)', floor=10)
+    if _core is None:
+        rep.missing('R18.g', 'crux_core facts')
+    else:
+        _prims.check_request_typestate(rep, 'R18.g', _core)
     rep.assume('futures oneshot: a Receiver whose Sender was dropped reports is_terminated and is skipped by select_biased!')
     rep.assume('NOT DECIDED: every interleaving of fire / clear / drop / late answers; the legacy API after the outcome')
 
